@@ -25,8 +25,10 @@ LEVEL_TEXT = ("Each sampled history (str, render, draw still/animated fitting or
               "count 1 at that moment, caller-owned data 0 until its owner finalizes it, nothing "
               "is rendered with finalized data, the data of an iterator that is still open has "
               "count 0, and at the end of the history (all references "
-              "dropped and collected) every token has count exactly 1. Exhaustive over render "
-              "indices per history; histories are sampled.")
+              "dropped and collected) every token has count exactly 1. Also injected, for every "
+              "k: KeyboardInterrupt in the k-th render and a failure of the render class's own "
+              "finalizer at its k-th call. Exhaustive over render indices per history; histories "
+              "are sampled.")
 LEVEL_NOTE = ("Trusted: SimRenderable's token bookkeeping (harness), CPython reference counting "
               "for the __del__ fallback (garbage collection is disabled inside a world and runs "
               "only at generated collect operations). The harness never keeps a RenderData "
@@ -37,7 +39,7 @@ TIERS = {
 }
 EXHAUSTIVE_INNER = True
 RULE = ("history = <= max_ops seeded operations over up to 3 renderables and 3 live iterators; "
-        "faults = every k-th _render_ call x {RuntimeError, StopIteration, KeyboardInterrupt} and every draw write "
+        "faults = every k-th _render_ call x {RuntimeError, StopIteration, KeyboardInterrupt}, every k-th finalizer call x RuntimeError and every draw write "
         "x KeyboardInterrupt; non-trivial = the history contains a fault, an early close or a "
         "dropped reference; distinct = hash of (history, fault)")
 PROBES = ["reentrant_close_during_render", "render_fault_in_first_animation_frame", "size_validation_failed_in_draw",
